@@ -10,9 +10,23 @@ MULT_CAP = [None]  # optional cap on array-valued binomial/poisson draws (single
 TAPE = [None]      # concrete replay: list of recorded results to feed back
 
 
+_VIA_GEN = [False]
+
+
 def _log(fn, args, result):
     ex = core.cur()
-    ex.rng_log.append({"fn": fn, "args": args, "result": result})
+    ex.rng_log.append({"fn": ("Generator." if _VIA_GEN[0] else "") + fn, "args": args, "result": result})
+
+
+def _gen(f):
+    def g(self, *a, **k):
+        _VIA_GEN[0] = True
+        try:
+            return f(self, *a, **k)
+        finally:
+            _VIA_GEN[0] = False
+
+    return g
 
 
 def _np():
@@ -197,21 +211,27 @@ def uniform(*a, **k):
 class Generator:
     """Generator methods share the stubs; a Generator carries no state in the model."""
 
+    @_gen
     def binomial(self, n, p, size=None):
         return binomial(n, p, size)
 
+    @_gen
     def poisson(self, lam=1.0, size=None):
         return poisson(lam, size)
 
+    @_gen
     def normal(self, loc=0.0, scale=1.0, size=None):
         return normal(loc, scale, size)
 
+    @_gen
     def choice(self, a, size=None, replace=True, p=None, **kw):
         return choice(a, size, replace, p)
 
+    @_gen
     def shuffle(self, x, axis=0):
         return shuffle(x)
 
+    @_gen
     def permutation(self, x, axis=0):
         return permutation(x)
 
